@@ -19,7 +19,7 @@ FUNCTIONS = ["pox.lib.addresses.IPAddr.*", "IPAddr6.*", "EthAddr.*", "_AddrBase 
              "cidr_to_netmask", "pox.lib.util.dpid_to_str/str_to_dpid"]
 BOUNDS = {}
 OUTSIDE = ["free-form symbolic strings (only the listed grammars with symbolic numerals)", "OUI name lookup", "IPv6 text with more than the listed "
-           "zero-run patterns (thorough: all 256)", "IPv6 networks given with host bits set (in_network requires the network address)"]
+           "zero-run patterns (thorough: all 256)"]
 ASSUMPTIONS = ["socket.inet_aton/inet_ntoa modelled for four decimal groups (symx.shims)"]
 
 
@@ -145,13 +145,15 @@ def h_ipv4(ctx, part):
       ctx.check('cidr: rejected only for host bits', And(not allow, (n & hostmask) != 0))
       ctx.witness('rejected')
   elif part == 'malformed':
-    k = int(ctx.int('kind', 0, 3))
+    k = int(ctx.int('kind', 0, 5))
     q = [t.str(x) for x in b]
     if k == 0: txt = t.join('.', q + [t.str(b[0])])          # five groups
     elif k == 1: txt = t.join('.', q[:2] + [''] + q[3:])     # empty group
     elif k == 2:
       big = ctx.int('big', 256, 999); txt = t.join('.', q[:3] + [t.str(big)])   # group > 255
-    else: txt = t.join('.', q[:3] + ['x' + q[3]])            # not a number
+    elif k == 3: txt = t.join('.', q[:3] + ['x' + q[3]])            # not a number
+    elif k == 4: txt = t.join('.', q) + ' x'                  # something after the address
+    else: txt = t.join('.', q) + chr(10) + '5.6.7.8'          # a second line
     ctx.check('malformed dotted quad rejected', raises(lambda: A.IPAddr(txt), Exception))
 
 
@@ -193,11 +195,12 @@ def h_eth(ctx, part):
     else: txt = t.join(':', [t.fmt('%x', (x,)) for x in b])
     ctx.check('accepted form parses to the same address', A.EthAddr(txt) == a)
   elif part == 'malformed':
-    k = int(ctx.int('kind', 0, 2))
+    k = int(ctx.int('kind', 0, 3))
     g = [t.fmt('%02x', (x,)) for x in b]
     if k == 0: txt = t.join(':', g[:5])                       # five groups
     elif k == 1: txt = t.join(':', g[:5] + ['g' + t.fmt('%x', (b[5] & 15,))])   # bad hex digit
-    else: txt = t.join(':', g) + ':'                          # trailing separator
+    elif k == 2: txt = t.join(':', g) + ':'                          # trailing separator
+    else: txt = t.join(':', [t.fmt('%x', (x,)) for x in b[:5]] + [t.fmt('%x', (ctx.int('big', 0x100, 0xfff),))])    # a group that is not an octet
     ctx.check('malformed text rejected', raises(lambda: A.EthAddr(txt), Exception))
 
 
@@ -266,8 +269,9 @@ def h_ipv6(ctx, part, pattern=0, free=(0,)):
     b = ctx.bytes('a', 16); a = A.IPAddr6.from_raw(b)
     nb = ctx.bytes('n', 16); net = A.IPAddr6.from_raw(nb)
     mask = (~((1 << (128 - bits)) - 1)) & ((1 << 128) - 1)
-    ctx.assume((num(nb) & ~mask) == 0)                     # the API requires the network address (see OUTSIDE)
-    ctx.check('in_network', Iff(a.in_network((net, bits)), (num(b) & mask) == num(nb)))
+    # (address, bits) tuples may carry host bits (parse_cidr(..., allow_host=True) returns such): membership is decided under the mask, as for IPv4
+    ctx.check('in_network', Iff(a.in_network((net, bits)), (num(b) & mask) == (num(nb) & mask)))
+    if bool((num(nb) & ~mask) != 0): ctx.witness('tuple-host-bits')
     cm = A.IPAddr6.cidr_to_netmask(bits)
     ctx.check('cidr_to_netmask returns the netmask as an IPAddr6 (as documented)', isinstance(cm, A.IPAddr6))
     ctx.check('from_num is the inverse of num', isinstance(A.IPAddr6.from_num(num(b)), A.IPAddr6) and A.IPAddr6.from_num(num(b)) == a)
@@ -326,8 +330,16 @@ def h_ipv6(ctx, part, pattern=0, free=(0,)):
     if r is not None: ctx.check('in_network(text)', Iff(r, (num(x) & mask) == a.num))
     if bool(hostzero): ctx.witness('cidr6-network')
     else: ctx.witness('cidr6-host-bits')
+  elif part == 'mapped':
+    # an IPAddr is an accepted form too: the result is the IPv4-mapped address ::ffff:a.b.c.d (documented), which converts back
+    from props import env
+    v4b = ctx.bytes('v4', 4); x4 = A.IPAddr(v4b)
+    m = A.IPAddr6(x4)
+    ctx.check('IPAddr6(IPAddr) is the IPv4-mapped address', ctx.Eq(m.raw, env.tobytes(ctx, [0] * 10 + [0xff, 0xff] + list(v4b))))
+    ctx.check('is_ipv4_mapped', m.is_ipv4_mapped is True or bool(m.is_ipv4_mapped))
+    ctx.check('to_ipv4() gives the address back', m.to_ipv4() == x4)
   elif part == 'malformed':
-    for txt in ('1::2::3', '1:2:3:4:5:6:7:8:9', '12345::1', 'g::1', '1.2.3.4', ':::'):
+    for txt in ('1::2::3', '1:2:3:4:5:6:7:8:9', '12345::1', 'g::1', '1.2.3.4', ':::', '1:2:3', '1:2:3:4:5:6:7', ':1:2:3:4:5:6:7', '1:2:3:4:5:6:7:', '1:2:3:4:5:1.2.3.4', ':1::2', '1::2:'):
       ctx.check('malformed %s rejected' % txt, raises(lambda: A.IPAddr6(txt), Exception))
 
 
@@ -413,7 +425,7 @@ def obligations(tier):
   v4 = [dict(part=p) for p in ('numeric', 'compare', 'text', 'network', 'netmask', 'infer', 'cidr', 'cidr_host', 'cidr_mask', 'malformed')]
   eth = [dict(part=p) for p in ('basic', 'compare', 'text', 'dash', 'plain', 'upper', 'short', 'malformed')]
   pats = list(range(256)) if thorough else [0x00, 0xff, 0x01, 0x80, 0x06, 0x66, 0x3c, 0xc3, 0x7e, 0x18, 0x1f, 0xf8, 0x55, 0x0f, 0x9c, 0x81, 0x42, 0x24, 0xe7, 0x33]
-  v6 = [dict(part='raw'), dict(part='malformed')]
+  v6 = [dict(part='raw'), dict(part='malformed'), dict(part='mapped')]
   for p in pats:
     nz = [i for i in range(8) if not (p >> i) & 1]
     v6.append(dict(part='text', pattern=p, free=tuple(nz[:2]) if not thorough else tuple(nz[:3])))
@@ -430,7 +442,7 @@ def obligations(tier):
   return [
     Obligation('O1_ipv4', h_ipv4, v4, witnesses=('net', 'contiguous', 'rejected', 'parsed'), max_decisions=20000, desc='IPAddr numeric/text/compare/network/CIDR/netmask/inference'),
     Obligation('O2_eth', h_eth, eth, max_decisions=20000, desc='EthAddr raw/text forms/compare/flags/malformed'),
-    Obligation('O3_ipv6', h_ipv6, v6, width=160, witnesses=('text', 'mixed', 'cidr6-network', 'cidr6-host-bits'), max_decisions=20000, desc='IPAddr6 raw/RFC 5952 text/membership/masks/CIDR text (lenient and strict, both orders)/malformed'),
+    Obligation('O3_ipv6', h_ipv6, v6, width=160, witnesses=('text', 'mixed', 'cidr6-network', 'cidr6-host-bits', 'tuple-host-bits'), max_decisions=20000, desc='IPAddr6 raw/RFC 5952 text/membership/masks/CIDR text (lenient and strict, both orders)/malformed'),
     Obligation('O5_forms', h_forms, [dict(typ=t, form=f) for t in ('eth', 'ip4', 'ip6') for f in ('bytearray', 'bytearray_raw_kw', 'bytearray_raw_true', 'list', 'tuple', 'copy')
                                      if not (t != 'eth' and f in ('list', 'tuple')) and not (t != 'ip6' and f.startswith('bytearray_raw'))], witnesses=('done',), max_decisions=20000, conc_cap=600,
                desc='binary input forms (bytearray / list / tuple / copy): equality, hash, text, immutable raw value, independence from the source buffer'),
